@@ -572,27 +572,7 @@ func (cd *CloneDetector) DetectClonesWithContext(ctx context.Context, fragments 
 
 	// Group related clones using configured strategy
 	// Clamp threshold to [0,1]
-	thr := cd.cloneDetectorConfig.GroupingThreshold
-	if thr < 0.0 {
-		thr = 0.0
-	} else if thr > 1.0 {
-		thr = 1.0
-	}
-	k := cd.cloneDetectorConfig.KCoreK
-	if k < 2 {
-		k = 2
-	}
-	groupingConfig := GroupingConfig{
-		Mode:           cd.cloneDetectorConfig.GroupingMode,
-		Threshold:      thr,
-		KCoreK:         k,
-		Type1Threshold: cd.cloneDetectorConfig.Type1Threshold,
-		Type2Threshold: cd.cloneDetectorConfig.Type2Threshold,
-		Type3Threshold: cd.cloneDetectorConfig.Type3Threshold,
-		Type4Threshold: cd.cloneDetectorConfig.Type4Threshold,
-	}
-	strategy := CreateGroupingStrategy(groupingConfig)
-	cd.groupClonesWithStrategy(strategy)
+	cd.groupClonesWithStrategy(cd.configuredGroupingStrategy())
 
 	return cd.clonePairs, cd.cloneGroups
 }
@@ -724,27 +704,7 @@ func (cd *CloneDetector) DetectClonesWithLSH(ctx context.Context, fragments []*C
 	cd.limitAndSortClonePairs(cd.cloneDetectorConfig.MaxClonePairs)
 
 	// Grouping
-	thr := cd.cloneDetectorConfig.GroupingThreshold
-	if thr < 0.0 {
-		thr = 0.0
-	} else if thr > 1.0 {
-		thr = 1.0
-	}
-	k := cd.cloneDetectorConfig.KCoreK
-	if k < 2 {
-		k = 2
-	}
-	groupingConfig := GroupingConfig{
-		Mode:           cd.cloneDetectorConfig.GroupingMode,
-		Threshold:      thr,
-		KCoreK:         k,
-		Type1Threshold: cd.cloneDetectorConfig.Type1Threshold,
-		Type2Threshold: cd.cloneDetectorConfig.Type2Threshold,
-		Type3Threshold: cd.cloneDetectorConfig.Type3Threshold,
-		Type4Threshold: cd.cloneDetectorConfig.Type4Threshold,
-	}
-	strategy := CreateGroupingStrategy(groupingConfig)
-	cd.groupClonesWithStrategy(strategy)
+	cd.groupClonesWithStrategy(cd.configuredGroupingStrategy())
 
 	return cd.clonePairs, cd.cloneGroups
 }
@@ -1055,6 +1015,36 @@ func (cd *CloneDetector) isSignificantClone(pair *ClonePair) bool {
 	// Additional filtering based on fragment characteristics
 	minSize := math.Min(float64(pair.Fragment1.Size), float64(pair.Fragment2.Size))
 	return minSize >= float64(cd.cloneDetectorConfig.MinNodes)
+}
+
+// configuredGroupingStrategy builds the grouping strategy selected by the detector configuration.
+func (cd *CloneDetector) configuredGroupingStrategy() GroupingStrategy {
+	// Clamp threshold to [0,1]
+	thr := cd.cloneDetectorConfig.GroupingThreshold
+	if thr < 0.0 {
+		thr = 0.0
+	} else if thr > 1.0 {
+		thr = 1.0
+	}
+	k := cd.cloneDetectorConfig.KCoreK
+	if k < 2 {
+		k = 2
+	}
+	return CreateGroupingStrategy(GroupingConfig{
+		Mode:           cd.cloneDetectorConfig.GroupingMode,
+		Threshold:      thr,
+		KCoreK:         k,
+		Type1Threshold: cd.cloneDetectorConfig.Type1Threshold,
+		Type2Threshold: cd.cloneDetectorConfig.Type2Threshold,
+		Type3Threshold: cd.cloneDetectorConfig.Type3Threshold,
+		Type4Threshold: cd.cloneDetectorConfig.Type4Threshold,
+	})
+}
+
+// GroupClonePairs groups the given pairs with the configured strategy. Callers that drop
+// pairs after detection use it so that groups are only linked by pairs that are kept.
+func (cd *CloneDetector) GroupClonePairs(pairs []*ClonePair) []*CloneGroup {
+	return cd.configuredGroupingStrategy().GroupClones(pairs)
 }
 
 // groupClonesWithStrategy groups clone pairs using a pluggable strategy.
